@@ -144,12 +144,32 @@ def plan(S, prop, mode, tier, avoid):
             if prop == "C15":
                 op["pra"] = present.draw(r)
                 op["pdec"] = present.draw(r)
+            elif chance(r, 0.3):
+                # C12's quantifier: byte-swapped and non-contiguous coordinate arrays (same values)
+                op["pra"] = present.draw(r, allow_convert=False)
+                op["pdec"] = present.draw(r, allow_convert=False)
             if op["sink"] == "file" and chance(r, 0.35):
                 ops.append({"k": "stale", "p": op["path"], "n": r.randrange(10, 4000), "c": c})
             ops.append(op)
             if chance(r, 0.2):
                 ops.append({"k": "match_bad", "m": m, "how": pick(r, ["size_mismatch", "radius_size", "unwritable"]),
                             "q": q, "radius": rad, "c": c})
+        if chance(r, 0.45):
+            # a long-lived one-shot HTM object fed from caller buffers that are refilled IN PLACE between calls
+            nb = wpick(r, [(1, 1), (r.randrange(2, 12), 4), (r.randrange(12, 61), 2)])
+            reg = draw_set(r, 60)
+            orad = float("%.4g" % (reg.get("crad", 30.0) * 10 ** r.uniform(-2.0, 0.3)))
+            orad = min(orad, 180.0)
+            od = r.randrange(1, max_depth_for(orad) + 1)
+            for j in range(r.randrange(2, 5)):
+                fill = dict(draw_set(r, 60, region=reg), n=nb)
+                q = fill if chance(r, 0.15) else draw_set(r, 40, region=reg)
+                o = {"k": "oneshot", "H": "h%d" % c, "depth": od, "fill": fill, "q": q, "self": q is fill,
+                     "radius": orad if chance(r, 0.7) else float("%.4g" % (orad * r.uniform(0.1, 1.0))),
+                     "maxmatch": wpick(r, [(-1, 3), (0, 1), (1, 3), (2, 2), (r.randrange(3, 8), 1)]),
+                     "sink": wpick(r, [("mem", 3), ("file", 1)]), "path": "c%d_o.txt" % c,
+                     "newbuf": chance(r, 0.15), "c": c}
+                ops.insert(r.randrange(1, len(ops) + 1), o)
         # depth: jointly with the largest radius used on this matcher (cost bound)
         dmax = max_depth_for(max(radii))
         ops[0]["depth"] = r.randrange(1, dmax + 1) if not chance(r, 0.4) else dmax
@@ -157,6 +177,9 @@ def plan(S, prop, mode, tier, avoid):
         if prop == "C15":
             ops[0]["pra"] = present.draw(r)
             ops[0]["pdec"] = present.draw(r)
+        elif chance(r, 0.3):
+            ops[0]["pra"] = present.draw(r, allow_convert=False)
+            ops[0]["pdec"] = present.draw(r, allow_convert=False)
         callers.append(ops)
     sched = S.py("schedule")
     idx = [0] * ncallers
@@ -281,6 +304,7 @@ def execute(script, run, env):
     judge = run.prop == "C12"
     c15 = run.prop == "C15"
     M = {}      # name -> dict(obj, ra, dec, depth, ncalls, last)
+    HH = {}     # name -> dict(obj HTM, depth, bufs {n: (ra, dec)}, ncalls)
     ncallers = len(set(op.get("c", 0) for op in script["ops"]))
     prev_c = None
     for i, op in enumerate(script["ops"]):
@@ -295,10 +319,14 @@ def execute(script, run, env):
                 ra, dec = points(op["set"])
                 depth = op["depth"] or 5
                 a_ra, a_dec, guards = ra, dec, []
-                if c15:
+                if c15 or "pra" in op:
                     a_ra, g1 = present.make(ra, op.get("pra"))
                     a_dec, g2 = present.make(dec, op.get("pdec"))
-                    guards = [("ra", g1), ("dec", g2)]
+                    if c15:
+                        guards = [("ra", g1), ("dec", g2)]
+                    else:
+                        run.fault("presented_" + g1["kind"])
+                        run.fault("presented_" + g2["kind"])
                 try:
                     obj = htm.Matcher(depth, a_ra, a_dec)
                 except Exception as e:
@@ -319,6 +347,8 @@ def execute(script, run, env):
                 do_match(run, op, M, htm, root, judge, c15)
             elif k == "match_bad":
                 do_bad(run, op, M, htm, root, judge)
+            elif k == "oneshot":
+                do_oneshot(run, op, HH, htm, root, judge)
         except Skip as s:
             run.event(c, k, "", "skipped(%s)" % s)
         if run.failures:
@@ -371,13 +401,18 @@ def do_match(run, op, M, htm, root, judge, c15):
     a_ra, a_dec, guards = qra, qdec, []
     if op.get("scalar_q") and n1 == 1:
         a_ra, a_dec = float(qra[0]), float(qdec[0])
-    elif c15:
+    elif c15 or "pra" in op:
         a_ra, g1 = present.make(qra, op.get("pra"))
         a_dec, g2 = present.make(qdec, op.get("pdec"))
-        guards = [("ra", g1), ("dec", g2)]
+        gs = [("ra", g1), ("dec", g2)]
         if isinstance(rad_arg, np.ndarray) and rad_arg.size > 1:
             rad_arg, g3 = present.make(rad_arg, op.get("pra"))
-            guards.append(("radius", g3))
+            gs.append(("radius", g3))
+        if c15:
+            guards = gs
+        else:
+            for _nm, g in gs:
+                run.fault("presented_" + g["kind"])
     kw = {"maxmatch": maxmatch}
     stale = False
     if sink == "file":
@@ -469,6 +504,61 @@ def do_match(run, op, M, htm, root, judge, c15):
                     "Matcher(depth=%d) on the same points" % m["depth2"])
 
 
+def do_oneshot(run, op, HH, htm, root, judge):
+    """HTM(depth).match on ONE long-lived HTM object; the second point set lives in caller buffers
+    that are refilled in place from call to call (same array objects, new contents)."""
+    c = op.get("c", 0)
+    h = HH.get(op["H"])
+    if h is None or h["depth"] != op["depth"]:
+        h = HH[op["H"]] = {"obj": htm.HTM(op["depth"]), "depth": op["depth"], "bufs": {}, "ncalls": 0}
+    ra2v, dec2v = points(op["fill"])
+    n2 = ra2v.size
+    buf = h["bufs"].get(n2)
+    if buf is None or op.get("newbuf"):
+        buf = h["bufs"][n2] = (np.empty(n2), np.empty(n2))
+    else:
+        run.fault("oneshot_buffer_refilled_in_place")
+    buf[0][:] = ra2v
+    buf[1][:] = dec2v
+    if op.get("self"):
+        qra, qdec = ra2v.copy(), dec2v.copy()
+    else:
+        qra, qdec = points(op["q"])
+    n1 = qra.size
+    radius = np.full(n1, float(op["radius"]))
+    maxmatch = op["maxmatch"]
+    feats = {"maxmatch": "all" if maxmatch <= 0 else ("1" if maxmatch == 1 else "k"), "sink": op["sink"],
+             "depth": op["depth"], "rclass": _sepclass(op["radius"]), "via": "oneshot"}
+    st = "oneshot|calls=%d" % min(3, h["ncalls"])
+    run.states.add(st)
+    run.trans.add("%s|mm=%s|r=%s|sink=%s" % (st, feats["maxmatch"], feats["rclass"], op["sink"]))
+    if h["ncalls"] > 0:
+        run.fault("oneshot_object_reused")
+    h["ncalls"] += 1
+    kw = {"maxmatch": maxmatch}
+    path = os.path.join(root, op["path"])
+    if op["sink"] == "file":
+        kw["file"] = path
+    what = "long-lived HTM(%d).match(%d pts, buffers[%d] refilled in place, radius=%r, maxmatch=%d%s) call #%d" % (
+        op["depth"], n1, n2, op["radius"], maxmatch, ", file" if op["sink"] == "file" else "", h["ncalls"])
+    try:
+        res = h["obj"].match(qra, qdec, buf[0], buf[1], float(op["radius"]), **kw)
+        if op["sink"] == "file":
+            pairs = htm.read_pairs(path)
+            res = (pairs["i1"], pairs["i2"], pairs["d12"])
+    except Exception as e:
+        run.event(c, "oneshot", sdigest(op), "error(%s)" % type(e).__name__)
+        if judge:
+            run.fail("htm.raises", feats, "%s raised %r" % (what, e))
+        return
+    m1, m2, d12 = res
+    run.event(c, "oneshot", sdigest(op), "ok", adigest((np.asarray(m1), np.asarray(m2), np.asarray(d12))))
+    if not judge:
+        return
+    S = brute(qra, qdec, ra2v, dec2v, radius)
+    judge_pairs(run, feats, m1, m2, d12, S, radius, maxmatch, what)
+
+
 def chance_det(seed):
     return (seed % 2) == 0
 
@@ -509,7 +599,7 @@ def simplify(script):
         c["ops"] = [dict(op, c=0) for op in ops]
         yield c
     for i, op in enumerate(ops):
-        for key in ("set", "q"):
+        for key in ("set", "q", "fill"):
             if key in op and isinstance(op[key], dict) and op[key]["n"] > 1:
                 for nn in (1, 2, op[key]["n"] // 2):
                     if 1 <= nn < op[key]["n"]:
@@ -519,6 +609,10 @@ def simplify(script):
                             # queries that reuse the matcher's own set follow automatically ("self")
                             pass
                         yield c
+        if "pra" in op and script.get("prop") != "C15":
+            c = dict(script)
+            c["ops"] = ops[:i] + [dict((a, b) for a, b in op.items() if a not in ("pra", "pdec"))] + ops[i + 1:]
+            yield c
         if op["k"] == "match":
             for key, val in (("also", []), ("perpoint", False), ("sink", "mem"), ("maxmatch", -1), ("scalar_q", False)):
                 if op.get(key) != val:
